@@ -94,6 +94,10 @@ pub struct ExecReport {
     pub sample: Option<serde_json::Value>,
     pub refs_computed: u64,
     pub refs_crashed: u64,
+    /// the plan was meant to be interleaved but had to be run with its callers one after
+    /// another, because the interleaved run blocked the simulator's OS thread
+    #[serde(default)]
+    pub degraded: bool,
 }
 
 #[derive(Serialize, Deserialize, Clone, Debug)]
@@ -397,17 +401,6 @@ pub fn work(gen: &Gen, cfg: &WorkerCfg) {
         let mut i = cfg.w;
         let mut watchdogs = 0u32;
         while i < total {
-            if watchdogs >= 2 {
-                // every further execution would cost another full time limit
-                emit(&ExecReport {
-                    stratum: stratum.to_string(),
-                    i,
-                    herr: Some("skipped: the watchdog fired twice in this stratum on this worker".into()),
-                    ..Default::default()
-                });
-                i += cfg.nw;
-                continue;
-            }
             let mut plan = match stratum {
                 "A" => gen.plan_a(i, cfg.tier.a_k),
                 "B" => gen.plan_b(i, &cfg.panickers),
@@ -419,12 +412,27 @@ pub fn work(gen: &Gen, cfg: &WorkerCfg) {
             }
             let rerun = i % 50 == 7;
             let want_sample = i < cfg.samples_per_stratum;
+            let mut degraded = false;
+            if plan.shuttle && watchdogs >= 2 {
+                // The interleaved run blocked the simulator's OS thread twice already on this
+                // worker (a blocking primitive the shadow locks do not model is held across a
+                // scheduling point): every further attempt would cost a full watchdog period.
+                // Run the callers one after another instead — history and hash-seed effects
+                // are still checked, interleavings are not — and say so in the report.
+                plan.shuttle = false;
+                degraded = true;
+            }
             let mut rep = run_one(&plan, &mut refs, rerun, want_sample);
-            if rep.herr.as_deref().is_some_and(|e| e.starts_with("watchdog"))
-                || rep.viol.iter().any(|v| v.element == "no-return")
-            {
+            if plan.shuttle && rep.herr.as_deref().is_some_and(|e| e.starts_with("watchdog")) {
+                watchdogs += 1;
+                plan.shuttle = false;
+                degraded = true;
+                rep = run_one(&plan, &mut refs, false, false);
+            } else if rep.viol.iter().any(|v| v.element == "no-return") {
                 watchdogs += 1;
             }
+            rep.degraded = degraded;
+            rep.stratum = stratum.to_string();
             rep.i = i;
             rep.refs_computed = refs.computed - before.0;
             rep.refs_crashed = refs.crashed - before.1;
